@@ -1,6 +1,9 @@
 import GenjaxModel.Proofs.Mcmc
 import GenjaxModel.Proofs.McmcKernels
 import GenjaxModel.Proofs.McmcKernelsReal
+import GenjaxModel.Proofs.GfiRegenMH   -- (c09gfi block at the end of this file)
+import GenjaxModel.Proofs.GfiRegenTie
+import GenjaxModel.Proofs.GfiAssessCond
 import Mathlib.Algebra.Order.Field.Rat
 import Mathlib.Tactic.NormNum
 /-!
@@ -187,3 +190,173 @@ example : hmcLogAlpha (5 : ℚ) (1/4) 3 [1] (quadLogp 0 [[1]] [0]) (quadGrad [[1
   decide +kernel
 
 end Genjax.Mcmc
+
+/-! ==============================================================================================
+    BEGIN work package `c09gfi`: `mh` on generative-function programs in a PROBABILISTIC semantics
+    (model `Model/GfiRegenDist.lean`; proofs `Proofs/GfiRegenLaw.lean`, `GfiRegenLink.lean`,
+    `GfiRegenSplit.lean`, `GfiRegenCoh.lean`, `GfiRegenNonneg.lean`, `GfiRegenTie.lean`,
+    `GfiRegenMH.lean`).
+
+    `GF.regenerateD e pd P cfg g t s args` is `GF.regenerate` with every SELECTED Distribution site
+    drawing from the finite-support distribution `pd` (outcomes: (new trace, weight, discard) or "the
+    code raised"), the weight in the LINEAR domain: where the code adds `lp + old_score` the model
+    multiplies `pm * e old_score` (`e : R → K` reads a stored log-domain score; the only thing asked
+    of it is `hinv`: `e (-(lp)) * pm = 1` where `pm ≠ 0`, "e of the stored score is the reciprocal
+    mass").  `E d φ` is the exact expectation, `optK φ` extends `φ` by 0 to "raised".
+    `GF.assessS pd g x s args = some ((A, B), r)` splits the joint density `assessP` of `x` along the
+    selection: `A` = product of the masses of the selected sites (`selMass`), `B` = product of the
+    masses of the unselected ones (`unselMass`), `pmassOf (assessP x) = A * B`.
+    `CM.eqOff s x x'`: same shape, equal values at every address the selection does not select.
+    Scope: Cond-free programs (Distribution, Fn, Vmap, Scan at any depth), repaired Scan
+    (`cfg.scanRegenDefined`).  NOT done: programs with Cond; invariance `Σ_x π(x) K(x → x') = π(x')`
+    summed over an enumeration of choice maps; the diagonal (rejection) part of the kernel.
+    ============================================================================================== -/
+namespace Genjax
+open Smc Smc.FinDist
+
+section C09Gfi
+variable {K : Type} [Field K]
+
+/-- TIE of `regenerateD` to the executable `GF.regenerate`: when every primitive has the one-point
+    support `[P.draw d a]` and the masses are the exponentials of the log densities, `regenerateD`
+    has a single outcome: what `GF.regenerate` returns (same trace and discard, or "raises" when it
+    raises) with the weight pushed through the exponential — EVERY program (Cond included), every
+    `cfg`. -/
+theorem C09_regenerateD_point {R : Type} [Zero R] [Add R] [Neg R] (e : R → K) (he0 : e 0 = 1)
+    (hadd : ∀ a b, e (a + b) = e a * e b) (pd : PD K) (P : Prims R) (cfg : Cfg)
+    (hsupp : ∀ d a, pd.support d a = [P.draw d a]) (hpm : ∀ d a v, pd.pm d a v = e (P.lp d a v))
+    (g : GF) (t : Tr R) (s : Sel) (args : List Val) :
+    ∃ q, g.regenerateD e pd P cfg t s args
+      = [((g.regenerate P cfg t s args).map fun r => (r.1, e r.2.1, r.2.2), q)] :=
+  regenerateD_point e he0 hadd pd P cfg hsupp hpm g t s args
+
+/-- non-vacuity of the tie: integer log densities base 2 -/
+example : ∃ e : ℤ → ℚ, e 0 = 1 ∧ ∀ a b, e (a + b) = e a * e b :=
+  ⟨fun n => (2 : ℚ) ^ n, by simp, fun a b => zpow_add₀ (by norm_num) a b⟩
+
+/-- THE LAW of `regenerate` (`_partial`: Cond-free): for every old trace `t` whatsoever, selection,
+    (new) arguments, every choice map `x'` of the program's static shape and every function `Φ` of
+    (return value, weight): `E[1{new choices = x'} · Φ(retval, weight)] = q · Φ(r, W)` where
+    `((q, W), r) = regenW t s x'` is the executable kernel specification (0 when it is `none`). -/
+theorem C09_regenD_law_partial {R : Type} [Zero R] [Add R] [Neg R] (e : R → K) (pd : PD K)
+    (P : Prims R) (cfg : Cfg) (hpd : pd.WF) (g : GF) (hcf : g.condFree = true) (t : Tr R) (s : Sel)
+    (args : List Val) (x' : CM) (Φ : Val → K → K) (hs : g.skel = some x'.skel) :
+    E (g.regenerateD e pd P cfg t s args) (optK (chW x' Φ))
+      = massOf2 (g.regenW e pd cfg t s x' args) Φ :=
+  regenD_law e pd P cfg hpd g hcf t s args x' Φ hs
+
+variable {R : Type} [AddCommGroup R] (e : R → K) (pd : PD K) (P : Prims R) (cfg : Cfg)
+
+/-- THE PROPOSAL LAW (`_partial`: Cond-free).  `t`: a coherent trace in the shape the operations
+    build, with choices `x`; `x'` any choice map of the program's shape.  The probability that
+    `regenerate` proposes `x'` is `q(x → x')` = the product over the SELECTED sites of the mass of
+    the value `x'` holds there (parameters computed from `x'`) when `x'` agrees with `x` off the
+    selection, and 0 when it differs at an unselected address.  (`a`: the arguments `t` was built
+    under; `args`: the arguments of the regenerate call — they may differ.) -/
+theorem C09_regenD_proposal_law_partial (hpd : pd.WF) (hsr : cfg.scanRegenDefined = true) (g : GF)
+    (hcf : g.condFree = true) (t : Tr R) (a : List Val) (s : Sel) (x x' : CM) (args : List Val)
+    (hc : g.Coh P a t) (hcan : g.Canon t) (hx : t.choices = some x) (hs' : g.skel = some x'.skel) :
+    E (g.regenerateD e pd P cfg t s args) (optK fun r => if r.1.choices = some x' then 1 else 0)
+      = if CM.eqOff s x x' then selMass pd g x' s args else 0 := by
+  have hs : g.skel = some x.skel := by
+    rw [← canon_choices_skel P g a t hcan hc, hx]; rfl
+  exact regenD_proposal_law e pd P cfg hpd hsr g hcf t a s x x' args hc hx hs hs'
+
+/-- THE WEIGHT IS THE MH RATIO (`_partial`: Cond-free, unchanged arguments), cross-multiplied so
+    that nothing is divided by zero: whenever the kernel reaches `x'` from `t` (choices `x`, whose
+    unselected sites have non-zero mass) with proposal mass `q` and weight `W` — by
+    `C09_regenD_law_partial` these ARE the probability of proposing `x'` and the weight reported on
+    that event — then `x'` agrees with `x` off the selection, `q = q(x → x')`, and
+    `W · π(x) · q(x → x') = π(x') · q(x' → x)`. -/
+theorem C09_regenD_weight_partial
+    (hinv : ∀ d a v, pd.pm d a v ≠ 0 → e (-(P.lp d a v)) * pd.pm d a v = 1)
+    (hsr : cfg.scanRegenDefined = true) (g : GF) (hcf : g.condFree = true)
+    (t : Tr R) (s : Sel) (x x' : CM) (args : List Val)
+    (hc : g.Coh P args t) (hcan : g.Canon t) (hx : t.choices = some x)
+    (hs' : g.skel = some x'.skel) (hne : unselMass pd g x s args ≠ 0)
+    (q W : K) (r : Val) (h : g.regenW e pd cfg t s x' args = some ((q, W), r)) :
+    CM.eqOff s x x' = true ∧ q = selMass pd g x' s args ∧
+    W * pmassOf (g.assessP pd x args) * q
+      = pmassOf (g.assessP pd x' args) * selMass pd g x s args := by
+  have hs : g.skel = some x.skel := by
+    rw [← canon_choices_skel P g args t hcan hc, hx]; rfl
+  exact regenW_mh_ratio e pd P cfg hinv hsr g hcf t s x x' args hc hx hs hs' hne q W r h
+
+end C09Gfi
+
+section C09GfiDB
+variable {K : Type} [Field K] [LinearOrder K] [IsStrictOrderedRing K] {R : Type} [AddCommGroup R]
+variable (e : R → K) (pd : PD K) (P : Prims R) (cfg : Cfg)
+
+/-- DETAILED BALANCE of `mh(trace, selection)` with respect to the program's joint density
+    (`_partial`: Cond-free programs, unchanged arguments; off-diagonal part of the kernel).
+    For any two coherent traces `t`, `t'` of the program (in the shape the operations build) with
+    choice maps `x`, `x'`:
+        `π(x) · K(x → x') = π(x') · K(x' → x)`,
+    `π = assessP` mass, `K(x → x') = mhAcc … t … x' = E[1{regenerate proposes x'} · min(1, w)]`
+    `= q(x → x') · min(1, w(x → x'))` — the statement `π(x) q(x→x') α(x→x') = π(x') q(x'→x) α(x'→x)`
+    of the property, about the probabilities and the weight `regenerateD` really produces.
+    Hypotheses on the primitives: `pd.WF` (support listed once, mass 0 outside), masses `≥ 0`,
+    `hinv` (a stored score is the log of the reciprocal mass).  No positivity assumption on `π`.
+    What is missing for the full strength of the property: programs with Cond; the rejection mass
+    on the diagonal and the passage to invariance `Σ_x π(x) K(x → x') = π(x')`. -/
+theorem C09_mh_gfi_detailed_balance_partial (hpd : pd.WF) (hpos : ∀ d a v, 0 ≤ pd.pm d a v)
+    (hinv : ∀ d a v, pd.pm d a v ≠ 0 → e (-(P.lp d a v)) * pd.pm d a v = 1)
+    (hsr : cfg.scanRegenDefined = true) (g : GF) (hcf : g.condFree = true) (s : Sel)
+    (args : List Val) (t t' : Tr R) (x x' : CM)
+    (hc : g.Coh P args t) (hc' : g.Coh P args t') (hcan : g.Canon t) (hcan' : g.Canon t')
+    (hx : t.choices = some x) (hx' : t'.choices = some x') :
+    pmassOf (g.assessP pd x args) * mhAcc e pd P cfg g t s args x'
+      = pmassOf (g.assessP pd x' args) * mhAcc e pd P cfg g t' s args x := by
+  have hs : g.skel = some x.skel := by
+    rw [← canon_choices_skel P g args t hcan hc, hx]; rfl
+  have hs' : g.skel = some x'.skel := by
+    rw [← canon_choices_skel P g args t' hcan' hc', hx']; rfl
+  exact mh_gfi_detailed_balance e pd P cfg hpd hpos hinv hsr g hcf s args t t' x x' hc hc' hx hx'
+    hs hs'
+
+end C09GfiDB
+
+/-! ### non-vacuity (exact rationals; `mhExPD`: one primitive on {0,1,2,3} with masses
+    1/2, 1/4, 1/8, 1/8, reversed when its parameter is non-zero; scores = integer logs base 2) -/
+
+/-- the hypotheses on the primitives hold -/
+example : mhExPD.WF ∧ (∀ d a v, 0 ≤ mhExPD.pm d a v) ∧
+    (∀ d a v, mhExPD.pm d a v ≠ 0 → mhExE (-(mhExP.lp d a v)) * mhExPD.pm d a v = 1) :=
+  ⟨mhExPD_wf, mhExPD_nonneg, mhEx_inv⟩
+
+/-- the hypotheses on the traces hold for the traces `generate` builds from the two choice maps of
+    the next example (coherent, canonical, with those choice maps) -/
+example : ∃ tw tw' : Tr ℤ × ℤ,
+    mhExG.generate mhExP Cfg.spec (some (mhExX 0 1)) [.num 0] = some tw ∧
+    mhExG.generate mhExP Cfg.spec (some (mhExX 3 1)) [.num 0] = some tw' ∧
+    mhExG.Coh mhExP [.num 0] tw.1 ∧ mhExG.Coh mhExP [.num 0] tw'.1 ∧
+    mhExG.Canon tw.1 ∧ mhExG.Canon tw'.1 ∧
+    tw.1.choices = some (mhExX 0 1) ∧ tw'.1.choices = some (mhExX 3 1) ∧
+    mhExG.condFree = true := by
+  refine ⟨_, _, rfl, rfl, ?_, ?_, ?_, ?_, rfl, rfl, rfl⟩
+  · exact generate_coh mhExP Cfg.spec mhExG (some (mhExX 0 1)) [.num 0] _ _ rfl
+  · exact generate_coh mhExP Cfg.spec mhExG (some (mhExX 3 1)) [.num 0] _ _ rfl
+  · exact generate_canon mhExP Cfg.spec mhExG (some (mhExX 0 1)) [.num 0] _ _ rfl
+  · exact generate_canon mhExP Cfg.spec mhExG (some (mhExX 3 1)) [.num 0] _ _ rfl
+
+/-- two sites `x ~ D(0); y ~ D(x)`, selection `"x"`, from `{x: 0, y: 1}` to `{x: 3, y: 1}`: the
+    unselected `y` keeps its value but its parameter changes, so the weight is not 1:
+    `π(x) = 1/2·1/4`, `q(x→x') = 1/8`, `w = (1/8)/(1/4) = 1/2`; `π(x') = 1/8·1/8`, `q(x'→x) = 1/2`,
+    `w' = 2`.  Both sides of detailed balance, computed through `regenerateD`: `1/128`. -/
+example : mhDbSides mhExE mhExPD mhExP Cfg.spec mhExG (.str "x") [.num 0] (mhExX 0 1) (mhExX 3 1)
+    = some (1/128, 1/128) := by decide +kernel
+
+/-- a Scan whose step draws `a ~ D(carry); b ~ D(a)` and carries `b`; selection `"a"` (the `a` of
+    every step is resampled, the `b`s are kept but their parameters change): both sides computed -/
+example : mhDbSides mhExE mhExPD mhExP Cfg.spec mhExScan (.str "a") mhExScanArgs
+    (mhExScanX 0 1 2 0) (mhExScanX 3 1 0 0) = some (1/16384, 1/16384) := by decide +kernel
+
+/-- … and a pair that differs at an unselected address has kernel mass 0 in both directions -/
+example : mhDbSides mhExE mhExPD mhExP Cfg.spec mhExG (.str "x") [.num 0] (mhExX 0 1) (mhExX 3 2)
+    = some (0, 0) := by decide +kernel
+
+end Genjax
+/-! ==============================================================================================
+    END work package `c09gfi`
+    ============================================================================================== -/
